@@ -16,6 +16,8 @@ FEED_CATS = DISPLAY_CATS + ('convert-from-unit', 'qstr', 'storage-label', 'add-u
 
 
 def run(ctx):
+    from .configtime import refusals_not_swallowed as _no_swallow
+    _no_swallow(ctx, 'C19.R3')
     from .configtime import derived_values as _derived
     _derived(ctx, 'C19.R1', ('Container', 'Recipe', 'RecipeStep', 'Unit', 'Plate', 'PlateSlicer'))
     stated_amounts_before_mixing(ctx, 'C19.R3')
